@@ -87,6 +87,17 @@ func c03Oracle(r *SeqRun) []Viol {
 				out = append(out, Viol{Key: "C03/resident-key-not-accounted", What: fmt.Sprintf("key %d (value %d) is resident but its cost is not accounted: RemainingCost() overstates the room", e.Key, e.Value)})
 			}
 		}
+		// ... and the converse: capacity charged for a key that is not resident (with a non-zero
+		// cost, so that RemainingCost() really differs from MaxCost minus the residents' costs)
+		stored := map[uint64]bool{}
+		for _, e := range post.Store {
+			stored[e.Key] = true
+		}
+		for _, c := range post.Costs {
+			if !stored[c.Key] && c.Cost != 0 {
+				out = append(out, Viol{Key: "C03/cost-accounted-for-absent-key", What: fmt.Sprintf("key %d is charged %d but is not resident: RemainingCost() understates the room", c.Key, c.Cost)})
+			}
+		}
 	}
 	if !c03Taint(r.Events) && allIdle(post.ClientState) && len(post.SetBufItems) == 0 {
 		if rem, ok := r.Probe["remaining"]; ok && rem < 0 {
